@@ -326,5 +326,195 @@ theorem scrollOne_step (oracle : Oracle) (content content' : Id → Int → Int 
           subst h
           exact whole { acc.1 with tree := t1 } t' _ _ hl1 rfl hout he
 
+theorem mixed_congr (content content' : Id → Int → Int → Cell) (t0 : Tree) (D D' : Int → Int → Prop) (st : St)
+    (h : ∀ L C, D L C ↔ D' L C) (hM : Mixed content content' t0 D st) : Mixed content content' t0 D' st := by
+  intro L C w l c ho
+  rcases hM L C w l c ho with h1 | ⟨h1, h2⟩ | ⟨h1, h2⟩
+  · exact Or.inl h1
+  · exact Or.inr (Or.inl ⟨(h L C).1 h1, h2⟩)
+  · exact Or.inr (Or.inr ⟨fun hx => h1 ((h L C).2 hx), h2⟩)
+
+/-- **The loop over the visible region.** -/
+theorem scrollLoop_step (oracle : Oracle) (content content' : Id → Int → Int → Cell) (t0 : Tree) (st0 : St) (win : Id)
+    (T' L' d r : Int) (pen : Pen) (hok : TreeOk t0) (hpos : RootsPositive t0) :
+    ∀ (rest : List Rect) (D : Int → Int → Prop) (acc acc' : St × Bool × Bool),
+    scrollLoop oracle win T' L' d r pen rest acc = .ok acc' →
+    SLoopOk t0 st0 acc.1 → (∀ ρ ∈ rest, ρ.Nonempty) → rest.Pairwise Rect.Disjoint →
+    (∀ ρ ∈ rest, ∀ L C, ρ.Mem L C → ownerAt t0 L C = some (win, L - T', C - L') ∧ ¬ D L C ∧
+      0 ≤ L ∧ L < st0.tlines ∧ 0 ≤ C ∧ C < st0.tcols) →
+    (∀ ρ ∈ rest, ∀ L C, ρ.Mem L C → content' win (L - T') (C - L') = content win (L - T' + d) (C - L' + r)) →
+    Mixed content content' t0 D acc.1 →
+    SLoopOk t0 st0 acc'.1 ∧ Mixed content content' t0 (fun L C => Covered rest L C ∨ D L C) acc'.1 := by
+  intro rest
+  induction rest with
+  | nil =>
+    intro D acc acc' h hl _ _ _ _ hM
+    simp only [scrollLoop] at h
+    cases h
+    exact ⟨hl, mixed_congr content content' t0 D _ _ (fun L C => ⟨Or.inr, fun hx => by
+      rcases hx with hx | hx
+      · exact absurd hx (RectSet.covered_nil L C)
+      · exact hx⟩) hM⟩
+  | cons ρ rest ih =>
+    intro D acc acc' h hl hne hdis hown hca hM
+    simp only [scrollLoop, bind, Bind.bind] at h
+    cases h1 : scrollOne oracle win T' L' d r pen acc ρ with
+    | ub e => rw [h1] at h; cases h
+    | ok acc1 =>
+      rw [h1] at h
+      simp only at h
+      obtain ⟨a1, a2⟩ := scrollOne_step oracle content content' t0 st0 win T' L' d r pen D acc acc1 ρ h1 hok hpos hl
+        (hne ρ List.mem_cons_self) (hown ρ List.mem_cons_self) (hca ρ List.mem_cons_self) hM
+      have hdis' := List.pairwise_cons.1 hdis
+      obtain ⟨b1, b2⟩ := ih (fun L C => ρ.Mem L C ∨ D L C) acc1 acc' h a1 (fun q hq => hne q (List.mem_cons_of_mem _ hq)) hdis'.2
+        (fun q hq L C hm => by
+          obtain ⟨c1, c2, c3⟩ := hown q (List.mem_cons_of_mem _ hq) L C hm
+          refine ⟨c1, ?_, c3⟩
+          rintro (hx | hx)
+          · exact hdis'.1 q hq L C ⟨hx, hm⟩
+          · exact c2 hx)
+        (fun q hq => hca q (List.mem_cons_of_mem _ hq)) a2
+      refine ⟨b1, mixed_congr content content' t0 _ _ _ (fun L C => ?_) b2⟩
+      rw [RectSet.covered_cons]
+      constructor
+      · rintro (hx | hx | hx)
+        · exact Or.inl (Or.inr hx)
+        · exact Or.inl (Or.inl hx)
+        · exact Or.inr hx
+      · rintro ((hx | hx) | hx)
+        · exact Or.inr (Or.inl hx)
+        · exact Or.inl hx
+        · exact Or.inr (Or.inr hx)
+
+/-! ### the visible region is what the window owns inside the rectangle -/
+
+theorem clip_nonempty (t : Tree) : ∀ (k : Nat) (a : Id) (aT aL : Int) (r r' : Rect),
+    clipToAncestors t k a aT aL r = .ok (some r') → r.Nonempty → r'.Nonempty := by
+  intro k
+  induction k with
+  | zero => intro a aT aL r r' h; simp [clipToAncestors] at h
+  | succ n ih =>
+    intro a aT aL r r' h hr
+    simp only [clipToAncestors, bind, Bind.bind] at h
+    cases hg : WinTree.get t a with
+    | ub e => rw [hg] at h; cases h
+    | ok aw =>
+      rw [hg] at h
+      simp only at h
+      cases hp : aw.parent with
+      | none =>
+        simp only [hp, pure, Pure.pure, Res.ok.injEq, Option.some.injEq] at h
+        subst h; exact hr
+      | some p =>
+        simp only [hp] at h
+        cases hgp : WinTree.get t p with
+        | ub e => rw [hgp] at h; cases h
+        | ok pw =>
+          rw [hgp] at h
+          simp only at h
+          cases hi : Rect.intersect r ⟨-(aT + aw.rect.top), -(aL + aw.rect.left), pw.rect.lines, pw.rect.cols⟩ with
+          | none => rw [hi] at h; simp only [pure, Pure.pure] at h; cases h
+          | some r1 =>
+            rw [hi] at h
+            simp only at h
+            exact ih p _ _ r1 r' h (Props.C06.intersect_some _ _ _ hi).1
+
+theorem visible_spec (t : Tree) (pens : Array (Option Pen)) (hok : TreeOk t) (ho : Ordered t) (hpl : ParentListed t)
+    (win : Id) (w : Win) (hw : t.wins[win]? = some w) (origrect rect0 rect : Rect)
+    (h0 : Rect.intersect ⟨0, 0, w.rect.lines, w.rect.cols⟩ origrect = some rect0)
+    (h1 : clipToAncestors t (t.wins.size + 1) win 0 0 rect0 = .ok (some rect))
+    (vis0 vis1 : List Rect) (h2 : rsAdd [] rect = .ok vis0) (h3 : subtractChildren t w.children vis0 = .ok vis1)
+    (pen : Pen) (top : Id) (vis' : List Rect) (T' L' : Int) (pen' : Pen)
+    (h4 : scrollWalk t pens (t.wins.size + 1) win vis1 0 0 pen = .ok (some (top, vis', T', L', pen')))
+    (tw : Win) (htw : t.wins[top]? = some tw) (hroot : tw.isRoot = true) :
+    RectSet.Inv vis' ∧
+    (∀ L C, Covered vis' L C → ownerAt t L C = some (win, L - T', C - L') ∧ origrect.Mem (L - T') (C - L')) ∧
+    (∀ L C l c, ownerAt t L C = some (win, l, c) → origrect.Mem l c → Covered vis' L C) := by
+  obtain ⟨hne0, hm0⟩ := Props.C06.intersect_some _ _ _ h0
+  have hrne := clip_nonempty t _ win 0 0 rect0 rect h1 hne0
+  have hinvnil : RectSet.Inv ([] : List Rect) := (RectSet.inv_iff _).2 RectSet.invS_nil
+  have hinv0 := Props.C05.add_inv rsFuel [] vis0 rect (rsAdd_ok h2) hrne hinvnil
+  have hcov0 := (Props.C05.add_spec rsFuel [] vis0 rect (rsAdd_ok h2) hrne (fun _ h => by cases h)).2
+  obtain ⟨hinv1, hlive, hcov1⟩ := subtractChildren_spec t w.children vis0 vis1 h3 hinv0
+  have hclip := clip_sub t _ win 0 0 rect0 rect h1
+  -- the level of the scrolled window itself
+  have hall_none : ∀ x y, NoneCovers t w.children x y → w.children.findSome? (fun ch => own t ch x y) = none :=
+    fun x y hn => List.findSome?_eq_none_iff.2 (own_none_of_noneCovers t ho w.children x y hn)
+  obtain ⟨hinv', tw', htw', htp, htv, htf, hbt, hv1, hv2⟩ := scrollWalk_spec t pens hok ho hpl win (fun l c => rect.Mem l c)
+    _ win vis1 0 0 pen top vis' T' L' pen' h4 hinv1 (Anc.refl win)
+    (fun l c ht => (hclip l c ht).2)
+    (fun l c ht aw haw => by
+      rw [hw] at haw; cases haw
+      have := ((hm0 l c).1 (hclip l c ht).1).1
+      simp only [Rect.Mem, Rect.bottom, Rect.right] at this
+      omega)
+    (fun x y hc aw haw => by
+      rw [hw] at haw; cases haw
+      obtain ⟨c1, c2⟩ := (hcov1 x y).1 hc
+      have hr : rect.Mem x y := by
+        rcases (hcov0 x y).1 c1 with hx | hx
+        · exact absurd hx (RectSet.covered_nil x y)
+        · exact hx
+      simp only [Int.sub_zero]
+      refine ⟨hr, ?_⟩
+      unfold subOwn
+      rw [hall_none x y c2])
+    (fun x y l c aw haw hs ht => by
+      rw [hw] at haw; cases haw
+      unfold subOwn at hs
+      cases hfs : w.children.findSome? (fun ch => own t ch x y) with
+      | none =>
+        rw [hfs] at hs
+        simp only [Prod.mk.injEq] at hs
+        obtain ⟨_, rfl, rfl⟩ := hs
+        refine ⟨(hcov1 x y).2 ⟨(hcov0 x y).2 (Or.inr ht), ?_⟩, by omega, by omega⟩
+        intro ch hch cw hcw hv
+        exact not_mem_of_own_none t ho ch x y (hlive ch hch) (List.findSome?_eq_none_iff.1 hfs ch hch) cw hcw hv
+      | some o =>
+        rw [hfs] at hs
+        simp only at hs
+        subst hs
+        obtain ⟨ch, hch, hown⟩ := List.exists_of_findSome?_eq_some hfs
+        have h1' := anc_le t ho hpl (ownerLoc_anc t hok.wf _ ch x y win l c hown)
+        have h2' : @LT.lt Nat _ win ch := ho win w hw ch hch
+        omega)
+  rw [htw] at htw'; cases htw'
+  have htop0 : top = 0 := hok.onlyRoot top tw htw hroot
+  subst htop0
+  obtain ⟨rw0, hrw0, _, _, _, hrt, hrl⟩ := hok.rootWin.ex
+  rw [htw] at hrw0; cases hrw0
+  have hown0 : ∀ L C, 0 ≤ L → L < tw.rect.lines → 0 ≤ C → C < tw.rect.cols →
+      ownerAt t L C = some (subOwn t 0 tw.children L C) := by
+    intro L C b1 b2 b3 b4
+    rw [ownerAt_own, own_eq_sub t ho 0 tw htw, if_pos, hrt, hrl]
+    · simp only [Int.sub_zero]
+    · refine ⟨htv, htf, (memb_true_iff _ _ _).2 ?_⟩
+      simp only [Rect.Mem, Rect.bottom, Rect.right]
+      omega
+  refine ⟨hinv', ?_, ?_⟩
+  · intro L C hc
+    obtain ⟨ht, hs⟩ := hv1 L C hc
+    have hb := hbt _ _ ht
+    rw [hown0 L C (by omega) (by omega) (by omega) (by omega), hs]
+    exact ⟨rfl, ((hm0 _ _).1 (hclip _ _ ht).1).2⟩
+  · intro L C l c hown horig
+    have hex := owner_exposedAt t hok L C win l c hown
+    -- the cell is inside the window, hence in `rect0`, and inside every ancestor, hence in `rect`
+    have hself : (⟨0, 0, w.rect.lines, w.rect.cols⟩ : Rect).Mem l c := by
+      simp only [ExposedAt] at hex
+      obtain ⟨w', hw', _, b1, b2, b3, b4, _⟩ := hex
+      rw [hw] at hw'; cases hw'
+      simp only [Rect.Mem, Rect.bottom, Rect.right]
+      omega
+    have hr0 : rect0.Mem l c := (hm0 l c).2 ⟨hself, horig⟩
+    obtain ⟨r', hr', hmr⟩ := clip_keep t hok _ win 0 0 rect0 (some rect) (t.wins.size + 1) l c L C h1 hr0
+      (by simpa using hex)
+    cases hr'
+    obtain ⟨wr, hwr, b1, b2, b3, b4⟩ := ownerAt_some_memb t ⟨⟨tw, htw, htf, htv, hrt, hrl⟩⟩ L C _ hown
+    rw [htw] at hwr; cases hwr
+    rw [hown0 L C b1 b2 b3 b4] at hown
+    simp only [Option.some.injEq] at hown
+    exact (hv2 L C l c hown hmr).1
+
 end WinFlush
 end Tickit
